@@ -484,6 +484,26 @@ def run(prog, rep):
                           f'{w} inserts the element and then its nested elements ({sorted(need)}) one by one; a nested node id that is already in use '
                           f'is refused at that point, after the element and the earlier nested elements were inserted, and they stay in the model')
 
+    # an element of the tree without a node id cannot be added (every writer asserts the id): the pre-check refuses it instead of
+    # skipping it, otherwise the writers fail at that element after its parent and earlier siblings were inserted
+    for w in DEEP[:1]:
+        fi = inl10[w]
+        for l in [n for n in ast.walk(fi) if isinstance(n, ast.For)]:
+            probes_in = [c for c in ast.walk(l) if isinstance(c, ast.Call) and call_name(c) in ('get_node_properties', 'node_exists', '_find_node')]
+            if not probes_in or not any(isinstance(r_, ast.Raise) for r_ in ast.walk(l)):
+                continue
+            tnames = {x.id for x in ast.walk(l.target) if isinstance(x, ast.Name)}
+            skips = [i_ for i_ in ast.walk(l) if isinstance(i_, ast.If) and isinstance(i_.test, ast.Compare) and isinstance(i_.test.ops[0], ast.Is) and
+                     isinstance(i_.test.left, ast.Name) and i_.test.left.id in tnames and
+                     isinstance(i_.test.comparators[0], ast.Constant) and i_.test.comparators[0].value is None]
+            for i_ in skips:
+                silent = any(isinstance(x, ast.Continue) for x in i_.body) and not any(isinstance(x, ast.Raise) for x in ast.walk(i_))
+                rep.instance('R10', f'pre-check loop over {norm(l.iter, 40)}: an element without a node id is refused: {not silent}')
+                if silent:
+                    rep.violation('R10', loc(apg10.module, i_), 'ABCPropertyGraph._check_can_add_sliver', f'{norm(i_.test)}: continue',
+                                  'the check that runs before the first insertion skips an element of the sliver tree that has no node id; the '
+                                  'writer of that element asserts the id, so the operation fails there - after the parent and the earlier '
+                                  'children were inserted, and they stay in the model')
     # the collector of the tree ids descends all the way: below each child container it calls itself on the child (or feeds a
     # worklist it is popping from); taking only `child.node_id` covers one level of a tree that is up to four deep
     collectors = []
